@@ -1,6 +1,7 @@
 (* C06, part 4: every command changes (object store, stack ref) by an [evolve]. *)
 From Coq Require Import Lia.
-From StgV Require Import Model.StackSpec Model.LogSpec Proofs.ReachBase Proofs.ReachEvolve Proofs.ReachTxn.
+From StgV Require Import Model.StackSpec Model.LogSpec Proofs.ReachBase Proofs.ReachEvolve Proofs.ReachTxn
+  Proofs.PickBasics.
 Local Open Scope nat_scope.
 
 Definition EV (b : bool) (w w' : world) : Prop :=
@@ -51,7 +52,7 @@ Proof.
     | None => None
     | Some (objs', so) =>
         Some (mkOpened (ensure_patch_refs
-                          (mkWorld objs' (w_branch w) (Some so) (w_prefs w) (w_wt w) (w_unmerged w) (w_base w))
+                          (mkWorld objs' (w_branch w) (Some so) (w_prefs w) (w_wt w) (w_unmerged w) (w_base w) (w_apc w))
                           (empty_state (w_branch w)))
                        (empty_state (w_branch w)) (w_branch w) true)
     end = Some op -> EV false w (op_world op)).
@@ -91,7 +92,7 @@ Definition exec_body (w : world) (t : txn) (halted : option halt) (msg : msgkind
             let trans_top := hd_error (rev (t_applied t)) in
             let stack_top := hd_error (rev (s_applied (t_stack t))) in
             let w0 := mkWorld (t_objs t) (w_branch w) (w_stack w) (w_prefs w) (t_wt t)
-                              (t_wt_unmerged t) (w_base w) in
+                              (t_wt_unmerged t) (w_base w) (w_apc w) in
             (* log external modifications *)
             let logged :=
               if Nat.eqb (s_head (t_stack t)) (w_branch w) then Some (w0, t_stack t)
@@ -125,7 +126,7 @@ Definition exec_body (w : world) (t : txn) (halted : option halt) (msg : msgkind
                   else inl (w_wt w1, w_unmerged w1) in
                 match co with
                 | inr (wt', um', x) =>
-                    (mkWorld (w_objs w1) (w_branch w1) (w_stack w1) (w_prefs w1) wt' um' (w_base w1), x)
+                    (mkWorld (w_objs w1) (w_branch w1) (w_stack w1) (w_prefs w1) wt' um' (w_base w1) (w_apc w1), x)
                 | inl (wt', um') =>
                     match w_stack w1 with
                     | None => (w1, X2)                   (* find_reference fails *)
@@ -144,7 +145,7 @@ Definition exec_body (w : world) (t : txn) (halted : option halt) (msg : msgkind
                                             end) (w_prefs w1) (t_updated t) in
                             let branch' := if o_set_head o then trans_head else w_branch w1 in
                             let w2 := mkWorld objs' branch' (Some so) prefs' wt' um'
-                                              (match t_base t with Some b => b | None => w_base w1 end) in
+                                              (match t_base t with Some b => b | None => w_base w1 end) (w_apc w1) in
                             match halted with
                             | Some _ => (w2, X3)
                             | None => (w2, X0)
@@ -194,7 +195,7 @@ Proof.
                                                 | Some o' => pm_set prefs (fst p) o'
                                                 | None => pm_remove prefs (fst p)
                                                 end) (w_prefs w1) (t_updated t))
-                    wt' um' x)).
+                    wt' um' x (w_apc w1))).
   { intros x. eapply EV_commit; [exact L| |exact SC|reflexivity]. cbn [s_prev]. now rewrite SP. }
   destruct halted; apply F.
 Qed.
@@ -297,7 +298,7 @@ Proof. intros. unfold run_rename. open_then. Qed.
 Lemma run_commit_ev : forall w r n al ae, EV false w (fst (run_commit w r n al ae)).
 Proof. intros. unfold run_commit. open_then. Qed.
 
-Lemma run_uncommit_ev : forall w n names, EV false w (fst (run_uncommit w n names)).
+Lemma run_uncommit_ev : forall lower_s w n names, EV false w (fst (run_uncommit lower_s w n names)).
 Proof. intros. unfold run_uncommit. open_then. Qed.
 
 Lemma run_clean_ev : forall w a u, EV false w (fst (run_clean w a u)).
@@ -440,6 +441,7 @@ Proof.
   - destruct (first_parent _ _); [|apply EV_refl].
     unfold put. cbv beta iota. eapply EV_ext; [apply EV_refl| |reflexivity].
     cbn [fst w_objs]. apply ext_by_put. reflexivity.
+  - apply EV_same with (w1 := w); [apply EV_refl|reflexivity|reflexivity].
 Qed.
 
 Lemma edit_body_keeps : forall pn o,
@@ -570,6 +572,25 @@ Proof.
   apply transact_ev; [exact Hev|apply squash_closure_keeps].
 Qed.
 
+Lemma pick_body_keeps : forall pn o na, keeps (pick_body pn o na).
+Proof.
+  intros pn o na objs t E. unfold pick_body.
+  apply texts_tbind; [now apply new_unapplied_keeps|].
+  intros objs2 t2 E2. destruct na; [exact E2|now apply push_patches_keeps].
+Qed.
+
+Lemma run_pick_ev : forall lower_s w src nm na, EV false w (fst (run_pick lower_s w src nm na)).
+Proof.
+  intros lower_s w src nm na.
+  destruct (run_pick_case lower_s w src nm na) as
+    [_|_|op Eo|op given o Eo _ _ _ _|op given o pn0 Eo _ _ _ _ _|op given o pn0 pn c par Eo _ _ _ _ _ _ _ _];
+    cbn [fst]; try apply EV_refl;
+    assert (Hev : EV false w (op_world op)) by (eapply open_stack_ev; [exact Eo|discriminate]);
+    try exact Hev.
+  apply transact_ev; [|apply pick_body_keeps]. unfold pick_op, pick_commit. cbn [op_world].
+  eapply EV_ext; [exact Hev| |reflexivity]. cbn [with_objs w_objs]. apply ext_by_put. reflexivity.
+Qed.
+
 Lemma step_ev_noclear : forall lower_s w c, c <> CLogClear -> EV false w (fst (step lower_s w c)).
 Proof.
   intros lower_s w c NC. destruct c; cbn [step].
@@ -598,8 +619,10 @@ Proof.
   - apply run_edit_ev.
   - apply run_rebase_ev.
   - apply run_squash_ev.
+  - apply run_pick_ev.
   - destruct (open_stack PAllow w) as [op|] eqn:Hop; [|apply EV_refl].
     eapply open_stack_ev; [exact Hop|discriminate].
+  - apply run_git_ev.
   - apply run_git_ev.
   - apply run_git_ev.
   - apply run_git_ev.
